@@ -12,7 +12,7 @@ rsync -a --exclude .git --exclude '*.pyc' --exclude __pycache__ /repo/ $S/repo/
 if ! (cd $S/repo && patch -p1 -s < "$patch"); then echo "PATCH-FAILED $patch"; exit 3; fi
 res=""
 if [ $suite = 1 ]; then
-  out=$(cd $S/repo && /venv/bin/python -m pytest -q -p no:cacheprovider --timeout=900 --continue-on-collection-errors 2>&1 | tail -3)
+  out=$(cd $S/repo && timeout 150 /venv/bin/python -m pytest -q -p no:cacheprovider --timeout=900 --continue-on-collection-errors 2>&1 | tail -3)
   if echo "$out" | grep -q "111 passed"; then res="suite=green"; else res="suite=RED($(echo "$out" | tail -1))"; fi
 fi
 for id in ${ids//,/ }; do
